@@ -323,7 +323,7 @@ def run_shard(job: dict[str, Any]) -> dict[str, Any]:
             chk.skip("pem_leaf_needs_cryptography")
             continue
         app = make_wsgi_app(server, authenticate=authenticate, token_key=b"k" * 32, proxy_auth_headers=extra_hdrs, proxy_proof_required=flag)
-        declared = M.declared_headers(tree) + list(extra_hdrs or []) + ([M.PROOF_HEADER] if flag else [])
+        declared = list(dict.fromkeys(M.declared_headers(tree) + list(extra_hdrs or []) + ([M.PROOF_HEADER] if flag else [])))
         note_expected = bool(declared)
         kinds = leaf_kinds(tree)
         notes_seen: set[tuple[str | None, str | None]] = set()
@@ -683,13 +683,13 @@ def _run(tier: str, seed: int) -> Check:
     trees = fixed_trees()
     rng.shuffle(trees)
     jobs: list[dict[str, Any]] = []  # fixed shard counts: results do not depend on the worker count
-    rnd = 500 if tier == "quick" else 24000
+    rnd = 500 if tier == "quick" else 16000
     parts = shard.split(trees, 8 if tier == "quick" else 32)
     for i, part in enumerate(parts):
         jobs.append({"kind": "server", "tier": tier, "seed": seed * 1000 + i, "trees": part, "random_trees": rnd // len(parts) + 1, "state_cap": 8 if tier == "quick" else 24, "client_every": 7 if tier == "quick" else 5})
     nfz = 2 if tier == "quick" else 12
     for i in range(nfz):
-        jobs.append({"kind": "client_fuzz", "tier": tier, "seed": seed * 1000 + 500 + i, "count": (3000 if tier == "quick" else 300_000) // nfz, "e2e_every": 3})
+        jobs.append({"kind": "client_fuzz", "tier": tier, "seed": seed * 1000 + 500 + i, "count": (3000 if tier == "quick" else 200_000) // nfz, "e2e_every": 3})
     for res in shard.pmap("checks.c21", "run_shard", jobs, timeout=600 if tier == "quick" else 2400):
         chk.merge(res)
     chk.extra["fixed_trees"] = len(trees)
